@@ -14,8 +14,8 @@ if ! cmake --build _build > _build/log 2>&1; then echo "$N: BUILD FAILS"; tail -
   T=$(./_build/bin/test_asam_cmp 2>&1 | grep -E "^\[  (PASSED|FAILED)" | tr '\n' ' ')
   echo "$N: unit tests with change: $T"
 fi
-g++ -std=c++17 -I$WT/include $D/demo.cpp $WT/src/*.cpp -o /tmp/wt/demo-$N-mut 2>/tmp/wt/demo-$N.err && (timeout 300 /tmp/wt/demo-$N-mut > /tmp/wt/demo-$N-mut.out 2>&1; echo "$N: demo WITH change exit=$?")
-g++ -std=c++17 -I/repo/include $D/demo.cpp /repo/src/*.cpp -o /tmp/wt/demo-$N-orig 2>>/tmp/wt/demo-$N.err && (timeout 300 /tmp/wt/demo-$N-orig > /tmp/wt/demo-$N-orig.out 2>&1; echo "$N: demo on ORIGINAL exit=$?")
+g++ -std=c++17 -pthread -I$WT/include $D/demo.cpp $WT/src/*.cpp -o /tmp/wt/demo-$N-mut 2>/tmp/wt/demo-$N.err && (timeout 300 /tmp/wt/demo-$N-mut > /tmp/wt/demo-$N-mut.out 2>&1; echo "$N: demo WITH change exit=$?")
+g++ -std=c++17 -pthread -I/repo/include $D/demo.cpp /repo/src/*.cpp -o /tmp/wt/demo-$N-orig 2>>/tmp/wt/demo-$N.err && (timeout 300 /tmp/wt/demo-$N-orig > /tmp/wt/demo-$N-orig.out 2>&1; echo "$N: demo on ORIGINAL exit=$?")
 rm -rf _build /tmp/wt/demo-$N-mut /tmp/wt/demo-$N-orig
 cd /verif
 tools/run_seeded.sh $WT "$@" | grep -v "violations=0"
